@@ -380,6 +380,7 @@ PROPS = {
             "C03_sufficient_budgets_agree": [],
             "C03_timeout_reported_run": [],
             "C03_budget_bound_legacy_refuted": [],
+            "C03_dispatch_fuel_irrelevant": [],
         },
         n_quick=200, n_thorough=2000,
         gates=["feature.reentry", "feature.stdlib", "feature.while", "feature.call", "outcome.ETimeout",
@@ -492,10 +493,11 @@ PROPS = {
             "VM_step_count_rel": [],
             "VM_budget_bound_legacy_refuted": [],
             "VM_witness_is_cut_off_now": [],
+            "VM_dispatch_fuel_irrelevant": [],
         },
         n_quick=200, n_thorough=2000,
         gates=["feature.closure", "feature.reentry", "feature.foreach", "feature.call", "feature.real",
-               "outcome.ETimeout", "outcome.Panic", "outcome.ETaskFailure", "outcome.ECallStackOverflow",
+               "outcome.ETimeout", "outcome.ETaskFailure", "outcome.ECallStackOverflow",
                "mode.history", "budget.zero", "need.found"],
         rule="development aid (not a registered property): the crate's own compile output of a hand-written corpus and "
              "of randomly generated card programs (arithmetic, locals/globals, if/while/repeat/for-each, tables, calls, "
